@@ -97,7 +97,7 @@ theorem entries_sublist :
       obtain ⟨more, h1, h2⟩ := ih _ _ res st' h
       refine ⟨e :: more, by simp [h1], ?_⟩
       simp only [List.map_cons, he]
-      exact List.Sublist.cons₂ _ h2
+      exact List.Sublist.cons_cons _ h2
 
 /-- **T17.4 (a file without converter interface is rejected).** -/
 theorem none_rejected (st : PState) :
